@@ -205,8 +205,12 @@ Proof.
   - intros t a Ht Ha HaS.
     destruct (esize_spec L Hwf Hnv fixed (cnts_of t) a) as [_ E]; auto.
     { eapply tuple_ok_cnts_match; eauto. }
+    pose proof (first_align_end L (cnts_of t) a Hwf (tuple_ok_cnt_ok L _ _ t Ht) Ha HaS) as (_ & _ & Efa).
+    cbv zeta in Efa.
     unfold elem_end. rewrite E.
-    pose proof (align_up_ge (snd (place L (cnts_of t) a) - a) (SA L) HSp). lia.
+    pose proof (align_up_ge (snd (place L (cnts_of t) a) - a) (SA L) HSp). split; [lia|].
+    rewrite Efa. replace (snd (place L (cnts_of t) a)) with (snd (place L (cnts_of t) a) - a + a) at 1 by lia.
+    rewrite align_up_shift by auto. lia.
 Qed.
 
 (* C05 (ii): an element of a list without VaryingSize parameter occupies exactly [size]
